@@ -172,6 +172,7 @@ class HistSim {
   void opPeek(const Op& op, size_t ix);
   void opEach(const Op& op, size_t ix);
   void opLongSet(const Op& op, size_t ix);
+  void opFeed(const Op& op, size_t ix);
   void opStrict(const Op& op, size_t ix);
 
   // real-side helpers
